@@ -163,6 +163,12 @@ def systematic(rng):
         P(G.assign("gA", {"k": "switch", "v": n(val), "body": body}), M(v("gA")))
         P(G.assign("gA", {"k": "switch", "v": n(val), "body": [body[3]] + body[:3]}), M(v("gA")))
         P(G.assign("gA", {"k": "switch", "v": n(val), "body": body[:1]}), M({"k": "isnilc", "body": [E(v("gA"))]}))
+        # cases executed in a scope nested in the switch block; default outside
+        for wrap in ("call", "if"):
+            grp = body[:3]
+            nested = E(G.call(grp)) if wrap == "call" else E({"k": "if", "c": b(True), "th": grp, "el": None})
+            P(G.assign("gA", {"k": "switch", "v": n(val), "body": [nested, M(n(50)), body[3], M(n(51)), body[4]]}), M(v("gA")))
+            P(G.assign("gA", {"k": "switch", "v": n(val), "body": [body[3], nested, M(n(50))]}), M(v("gA")))
     # try / throw
     P(G.assign("gA", {"k": "try", "body": [M(n(1)), {"k": "throw", "x": n(7)}, M(n(2))], "handler": [M(v("_exception")), E(G.binop("+", v("_exception"), n(1)))]}), M(v("gA")))
     P(G.assign("gA", {"k": "try", "body": [M(n(1)), E(n(3))], "handler": [M(n(2)), E(n(4))]}), M(v("gA")))
